@@ -311,7 +311,9 @@ def _day_chunk(job):
             inv = eval_exact(t_inv, {Y: Fraction(y), N: doy, "$memo": {}}, prims)
         except NotEvaluable as e:
             return n, [("not-evaluable", "%s at %d-%02d-%02d" % (e, y, m, d))]
-        except (TypeError, ValueError, ZeroDivisionError, IndexError) as e:
+        except (TypeError, ValueError, IndexError, KeyError) as e:     # the evaluator's own limits are not evidence against the code
+            return n, [("not-evaluable", "%s: %s at %d-%02d-%02d" % (type(e).__name__, e, y, m, d))]
+        except ZeroDivisionError as e:
             probs.append(("error", "%s: %s at %d-%02d-%02d" % (type(e).__name__, e, y, m, d)))
             continue
         n += 1
